@@ -75,6 +75,34 @@ func eachInstrRegion(fn *ssa.Function, f func(ssa.Instruction)) {
 	}
 }
 
+// eachInstrI visits fn and, when the rule opted in with withInline, the single-site helpers fn
+// calls (transitively), as if they had been inlined back.
+func eachInstrI(fn *ssa.Function, f func(ssa.Instruction)) {
+	if !inlineAware || curProgram == nil {
+		eachInstr(fn, f)
+		return
+	}
+	for _, g := range inlinedRegion(curProgram, fn) {
+		eachInstr(g, f)
+	}
+}
+
+// callsNamedI is callsNamed over eachInstrI.
+func callsNamedI(fn *ssa.Function, names ...string) []ssa.Instruction {
+	var out []ssa.Instruction
+	eachInstrI(fn, func(i ssa.Instruction) {
+		if ci, ok := i.(ssa.CallInstruction); ok {
+			n := callName(ci.Common())
+			for _, x := range names {
+				if n == x {
+					out = append(out, i)
+				}
+			}
+		}
+	})
+	return out
+}
+
 func findInstrs(fn *ssa.Function, pred func(ssa.Instruction) bool) []ssa.Instruction {
 	var out []ssa.Instruction
 	eachInstr(fn, func(i ssa.Instruction) {
@@ -163,6 +191,35 @@ func indexIn(i ssa.Instruction) int {
 
 // instrDominates: a is executed before b on every path reaching b.
 func instrDominates(a, b ssa.Instruction) bool {
+	if a.Parent() != b.Parent() {
+		if !inlineAware || curProgram == nil {
+			return false
+		}
+		// b inside a single-site helper (transitively) of a's function: compare with the call
+		for x := b; ; {
+			cs := singleSite(curProgram, x.Parent())
+			if cs == nil {
+				break
+			}
+			if cs.Parent() == a.Parent() {
+				return a == ssa.Instruction(cs) || instrDominates(a, cs)
+			}
+			x = cs
+		}
+		// a inside a single-site helper of b's function: a must run on every path through the
+		// helper, and the call must dominate b
+		for x := a; ; {
+			cs := singleSite(curProgram, x.Parent())
+			if cs == nil || !dominatesAllReturns(x) {
+				break
+			}
+			if cs.Parent() == b.Parent() {
+				return instrDominates(cs, b)
+			}
+			x = cs
+		}
+		return false
+	}
 	if a.Block() == b.Block() {
 		return indexIn(a) < indexIn(b)
 	}
@@ -268,6 +325,12 @@ func factsAt(b *ssa.BasicBlock) []fact {
 		}
 	}
 	addBlockFacts(b, 0)
+	for _, f := range callerFacts(b) {
+		if !seenFact[f.Cond] {
+			seenFact[f.Cond] = true
+			out = append(out, f)
+		}
+	}
 	return out
 }
 
@@ -346,12 +409,36 @@ func implIf(v ssa.Value, val bool, depth int) *ssa.If {
 func explore(start ssa.Instruction, inclusive bool, stop func(ssa.Instruction) bool) map[ssa.Instruction]bool {
 	reached := map[ssa.Instruction]bool{}
 	visited := map[*ssa.BasicBlock]bool{}
+	contDone := map[*ssa.Call]bool{}
 	var walk func(b *ssa.BasicBlock, from int)
 	walk = func(b *ssa.BasicBlock, from int) {
 		for k := from; k < len(b.Instrs); k++ {
 			i := b.Instrs[k]
 			if stop != nil && stop(i) {
 				return
+			}
+			if inlineAware && curProgram != nil {
+				// a call of a single-site helper continues inside the helper; the helper's
+				// returns continue after that call (the view obtained by inlining it back)
+				if call, ok := i.(*ssa.Call); ok {
+					if h := call.Call.StaticCallee(); h != nil && len(h.Blocks) > 0 && singleSite(curProgram, h) == call {
+						reached[i] = true
+						if !visited[h.Blocks[0]] {
+							visited[h.Blocks[0]] = true
+							walk(h.Blocks[0], 0)
+						}
+						return
+					}
+				}
+				if _, ok := i.(*ssa.Return); ok {
+					if cs := singleSite(curProgram, b.Parent()); cs != nil {
+						if !contDone[cs] {
+							contDone[cs] = true
+							walk(cs.Block(), indexIn(cs)+1)
+						}
+						return
+					}
+				}
 			}
 			reached[i] = true
 		}
@@ -480,6 +567,11 @@ func canonPath(v ssa.Value) string { return pathMode(v, true) }
 func pathMode(v ssa.Value, canon bool) string {
 	switch x := v.(type) {
 	case *ssa.Parameter:
+		if canon {
+			if arg := inlineArg(x); arg != nil {
+				return describeVal(arg)
+			}
+		}
 		return paramName(x)
 	case *ssa.FreeVar:
 		if canon {
@@ -637,6 +729,11 @@ func flowsFrom(v ssa.Value, src func(ssa.Value) bool) bool {
 			return true
 		}
 		switch x := v.(type) {
+		case *ssa.Parameter:
+			// parameter of a single-site helper: the argument of that call
+			if arg := inlineArg(x); arg != nil {
+				return rec(arg)
+			}
 		case *ssa.UnOp:
 			if x.Op == token.MUL {
 				// load: follow stores into the same local alloc
@@ -956,4 +1053,43 @@ func branchOn(v ssa.Value) (onTrue, onFalse *ssa.BasicBlock, ifi *ssa.If) {
 func isNilConst(v ssa.Value) bool {
 	k, ok := v.(*ssa.Const)
 	return ok && k.Value == nil
+}
+
+// atomicKind classifies a call as a sync/atomic operation, in either spelling:
+// atomic.AddUint64(&x, 1) or x.Add(1) on an atomic.Uint64/Int64/… value. It returns the kind
+// ("add", "load", "store", "swap", "cas", "other"), or "" when the call is not atomic.
+func atomicKind(cc *ssa.CallCommon) string {
+	n := callName(cc)
+	var op string
+	switch {
+	case strings.HasPrefix(n, "sync/atomic."):
+		op = strings.TrimPrefix(n, "sync/atomic.")
+	case strings.HasPrefix(n, "(*sync/atomic."):
+		if k := strings.Index(n, ")."); k >= 0 {
+			op = n[k+2:]
+		}
+	default:
+		return ""
+	}
+	switch {
+	case strings.HasPrefix(op, "Add"):
+		return "add"
+	case strings.HasPrefix(op, "Load"):
+		return "load"
+	case strings.HasPrefix(op, "Store"):
+		return "store"
+	case strings.HasPrefix(op, "CompareAndSwap"):
+		return "cas"
+	case strings.HasPrefix(op, "Swap"):
+		return "swap"
+	}
+	return "other"
+}
+
+func isAtomicCall(i ssa.Instruction) (*ssa.Call, bool) {
+	call, ok := i.(*ssa.Call)
+	if !ok || atomicKind(&call.Call) == "" {
+		return nil, false
+	}
+	return call, true
 }
